@@ -959,6 +959,13 @@ func (ctx *RenderContext) EvaluateExpression(node Node) (interface{}, error) {
 			return nil, err
 		}
 
+		// parent() hands back a function that needs the render context; resolve it
+		// here, so that its value is the parent block's output in every position
+		// (filters, concatenation, set, conditions), not only in a print tag
+		if deferred, ok := result.(func(*RenderContext) (interface{}, error)); ok {
+			return deferred(ctx)
+		}
+
 		// Make sure function results that should be iterable actually are
 		if result == nil && (n.name == "range" || n.name == "length") {
 			return []interface{}{}, nil
